@@ -374,6 +374,28 @@ impl Property for C17 {
                                 break;
                             }
                         }
+                        // FA2: a validator whose share k*stake/total is rounded *up* gets at most that one
+                        // extra seat (a single biased coin) and has zero weight in the residual
+                        // distribution, so it is never drawn beyond floor + 1. Shares within 0.1 % of a
+                        // rounding tie are left out (the implementation rounds in floating point).
+                        if case.sampler == Sampler::Fa2 && !out.failed() {
+                            let slack = total / 1000 + 1;
+                            let rem = |w: usize| (stakes[w] as u128 * k as u128) % total;
+                            let some_clearly_down = (0..n).any(|w| rem(w) > slack && 2 * rem(w) + slack < total);
+                            if some_clearly_down {
+                                for v in 0..n {
+                                    let floor = (stakes[v] as u128 * k as u128 / total) as usize;
+                                    out.checks += 1;
+                                    if 2 * rem(v) > total + slack && count[v] > floor + 1 {
+                                        out.violate(
+                                            "C17/zero-weight-validator-drawn/Fa2".to_string(),
+                                            format!("n={n} k={k}: validator {v} holds {}/{total} (share rounded up to {} seats), got {} seats", stakes[v], floor + 1, count[v]),
+                                        );
+                                        break;
+                                    }
+                                }
+                            }
+                        }
                         out.nontrivial |= unequal && some_floor;
                     } else {
                         out.nontrivial |= unequal;
